@@ -45,6 +45,11 @@ SYNTH = [
     ('oc_block', '.m', b'void (^blk)(int) = ^(int x){ return ; } ;\n[obj  msg : 1 with : 2 ] ;\n'),
     ('qt_signal_open', '.cpp', b'void f(){ connect( a, SIGNAL( x(int) ), b, SLOT( y('),
     ('qt_signal', '.cpp', b'void f(){ connect( a, SIGNAL( x(int) ), b, SLOT( y(int) ) ) ; }\n'),
+    ('qt_words_dangling', '.h', b'#define A( n )  SIGNAL( n )\n#define B( n )  SLOT( n )\n'),
+    ('qt_words_as_names', '.cpp', b'enum  K { SIGNAL , SLOT } ;\nint  a ;\n'),
+    ('qt_word_single', '.h', b'#define GLUE_SLOT( name )  SLOT( name )\n'),
+    ('cpp_in_header', '.h', b'namespace  n { class  A : public B { public : template< class T >  T  f( ) ; } ; }\n'),
+    ('oc_in_mm', '.mm', b'@interface  Foo : Bar\n@property ( nonatomic ) int  x ;\n-(void) f : (int) x ;\n@end\nvoid g(){ @try { f( ) ; } @catch ( id e ) { } }\n'),
     ('includes_unsorted', '.cpp', b'#include "zeta.h"\n#include <vector>\n#include "includes_unsorted.h"\n#include "alpha.h"\nint  a ;\n'),
     ('includes_shared', '.cpp', b'#include "alpha.h"\n#include "includes_unsorted.h"\n#include "zeta.h"\n#include "includes_shared.h"\nint  b ;\n'),
     ('imports_java', '.java', b'import z.Y;\nimport a.B;\nclass  A { int  f( ){ return 1 ; } }\n'),
